@@ -161,6 +161,8 @@ class Sym:
                 return ("int", o["int"])
             if "fn" in o:
                 return ("fn", callee_name(o["fn"]))
+            if "static" in o:
+                return ("const", "static " + o["static"], o["ty"])
             return ("const", o["val"], o["ty"])
         if o["k"] in ("copy", "move"):
             return self.read_place(st, o["place"])
